@@ -482,7 +482,17 @@ def run_check(prop, tier, seed, replay=None):
     broken = []          # (what, detail)
     props_v = "Props/%s.v" % prop
     with Lock(True):
+        files = None
         for b in regen(log):
+            # py2v tags a refusal with the generated file the function belongs to: it is an obligation of exactly the
+            # properties whose Props closure reads that file (the others never mention the function); untagged lines
+            # (table generators) stay obligations of every property
+            m = re.match(r"\[(Gen/\w+\.v)\] ", b)
+            if m:
+                files = files if files is not None else deps_of(props_v)
+                if m.group(1) not in files:
+                    log.append("translation refusal outside the closure of %s: %s" % (props_v, b))
+                    continue
             broken.append(("translation", b))
         files = deps_of(props_v)
         ok, where, err = build([props_v + "o"], log)
